@@ -18,7 +18,7 @@ MANIFEST = dict(
          "timing tables. Tie: translator facts + trace validation on the FULL real stack (manager + locator + spa + facade + real simulator, virtual time) under seeded "
          "fault scripts (blackouts around each timeout, lossy and RF-error phases, selective loss, trigger phases, resets swept over the discovery / reconnect windows, "
          "a lost partial update under continuing traffic): the observed event stream is mapped to macro inputs, the model must reproduce the manager's record after "
-         "each, the recovery time must respect the bound, the facade must mirror the spa, every blackout that begins in CONNECTED must be reported in time. Session 4: the guard of the retry-exceeded branch is a generated fact (retryExceededNeedsSpa), abandoned_attempt_is_ignored is a theorem (the late failure report of a connection attempt abandoned by a reset cannot move a manager without a spa; genuine defect D8c, fix 4611c09), and the script reset-in-last-retry (resets during the last retry of a failing handshake request) is part of every run. Also: only_disconnect_closes_the_protocol over all 58 regenerated coroutine skeletons (reporting an error never silences the ping loop) and a script with an RF-error period long enough for one connection to count more than 50 reports. Also a network mode in which everything but pings gets RFERR (an error state reached without missing a ping) and every_answered_ping_is_announced over the ping loop skeleton. Resets tied to the handshake traffic (1 ms / 30 ms after each request was transmitted). Session 5: one segment of the status block answer lost (first / middle / last; once, for a while, during the periodic refresh, after a reset): the answer that arrived is not the spa's block and must not be taken for it (mirror oracle). pump_survives_every_exception / pump_contains_every_exception: over the regenerated skeleton of _sequence_pump with Python's handler-matching rule (Model/Cancel.lean, Thrown), whatever async_locate_spas / async_connect / async_reset raise is swallowed by a handler of the loop and the pump goes on; only a cancellation ends it.",
+         "each, the recovery time must respect the bound, the facade must mirror the spa, every blackout that begins in CONNECTED must be reported in time. Session 4: the guard of the retry-exceeded branch is a generated fact (retryExceededNeedsSpa), abandoned_attempt_is_ignored is a theorem (the late failure report of a connection attempt abandoned by a reset cannot move a manager without a spa; genuine defect D8c, fix 4611c09), and the script reset-in-last-retry (resets during the last retry of a failing handshake request) is part of every run. Also: only_disconnect_closes_the_protocol over all 58 regenerated coroutine skeletons (reporting an error never silences the ping loop) and a script with an RF-error period long enough for one connection to count more than 50 reports. Also a network mode in which everything but pings gets RFERR (an error state reached without missing a ping) and every_answered_ping_is_announced over the ping loop skeleton. Resets tied to the handshake traffic (1 ms / 30 ms after each request was transmitted). Session 5: one segment of the status block answer lost (first / middle / last; once, for a while, during the periodic refresh, after a reset): the answer that arrived is not the spa's block and must not be taken for it (mirror oracle). pump_survives_every_exception / pump_contains_every_exception: over the regenerated skeleton of _sequence_pump with Python's handler-matching rule (Model/Cancel.lean, Thrown), whatever async_locate_spas / async_connect / async_reset raise is swallowed by a handler of the loop and the pump goes on; only a cancellation ends it. Round 14: reset-with-slow-client scripts (the pump runs a whole discovery inside the reset; genuine defect D16, fix 124e61a); model input locateInReset over the regenerated fact resetForgetsDescriptorsLast, reset_with_a_discovery_inside_recovers; a reset-landing oracle on every script.",
     note="partial: the timed model abstracts discovery / request / transfer phases to the bounds proved for them elsewhere, so a delay INSIDE a phase that those properties "
          "allow is seen only by the traces; real timer skew is outside.",
     technique="Lean 4 kernel evaluation over a finite macro-step machine built from source-extracted facts, lifted by induction; trace validation of the whole real stack",
@@ -93,7 +93,11 @@ def run_script(kind, phases, resets, bound_s, yielding=False, traffic=None, verb
             async def handle_event(self, event, **kw):
                 name = str(event).split(".")[-1]
                 res["events"].append((round(loop.time(), 2), name, str(self.spa_state).split(".")[-1]))
-                if yielding:
+                if isinstance(yielding, float):
+                    # a client whose handler is SLOW when the connection goes away (it saves state, tells its own users): longer than a discovery takes
+                    if "TEARDOWN" in name or "DISCONNECTED" in name:
+                        await asyncio.sleep(yielding)
+                elif yielding:
                     await asyncio.sleep(0)      # a client whose handler really suspends (an automation system's does)
         m = Man("uuid-1", spa_identifier=IDENT, spa_address="10.0.0.9", spa_name="Spa")
         await m.__aenter__()
@@ -169,8 +173,14 @@ def run_script(kind, phases, resets, bound_s, yielding=False, traffic=None, verb
                 in_connect = any(fn == "_connect" for fn, _ in sig)
                 in_locate = any(fn in ("discover", "async_locate_spas") for fn, _ in sig)
                 res["inputs"].append((round(now, 2), "reset!" if in_connect else ("resetL" if in_locate else "reset")))
+                n_ev = len(res["events"])
                 await m.async_reset()
                 res["samples"].append((round(loop.time(), 2), "after-reset", record()))
+                inside = [e[1] for e in res["events"][n_ev:]]
+                if "LOCATING_STARTED" in inside and "LOCATING_FINISHED" in inside and not in_connect and not in_locate:
+                    # the pump ran a whole discovery while the reset was announcing the disconnection to a slow client
+                    res["inputs"][-1] = (res["inputs"][-1][0], "resetP")
+                    res["discovery_inside_reset"] = True
             st = str(m.spa_state).split(".")[-1]
             if st == "CONNECTED":
                 was_connected = True
@@ -283,20 +293,25 @@ def run(ctx):
     scripts.append(("segment-lost-for-a-while", [(6, "seg:0")], []))
     scripts.append(("segment-lost-in-refresh", [("until:CONNECTED", "healthy"), (100, "seg:0")], []))
     scripts.append(("segment-lost-after-reset", [("until:CONNECTED", "healthy"), (8, "seg:0")], [(3.0, "steady")]))
+    # a client whose handlers of the disconnection events are SLOW (they save state, tell their own users): a user reset then takes
+    # long enough for the sequence pump to run a whole discovery inside it
+    for slow_ in (0.3, 1.0):
+        scripts.append(("reset-with-slow-client", [], [(10.0, "steady")], None, slow_))
+    scripts.append(("reset-with-slow-client", [], [(10.0, "steady"), (30.0, "steady")], None, 0.5))
     # a healthy network on which ONE partial update is lost while the spa keeps reporting other changes: only the periodic refresh
     # can repair the mirror, and it must (within a few refresh periods)
     scripts.append(("lost-update-under-traffic", [], []))
     for n_s, sc_ in enumerate(scripts):
         k, P, R = sc_[:3]
         VR = sc_[3] if len(sc_) > 3 else None
-        yielding = n_s % 2 == 1
+        yielding = sc_[4] if len(sc_) > 4 else (n_s % 2 == 1)
         traffic = {"lost_at": 30, "tick_every": 45} if k == "lost-update-under-traffic" else None
         inp = {"kind": k, "phases": P, "resets": R, "yielding": yielding}
         if VR:
             inp["verb_resets"] = VR
         if traffic:
             inp["traffic"] = traffic
-        ctx.hist("client_handler", "yields" if yielding else "returns-at-once")
+        ctx.hist("client_handler", f"slow:{yielding}s" if isinstance(yielding, float) else ("yields" if yielding else "returns-at-once"))
         try:
             res = run_script(k, P, R, bound_idle, yielding, traffic, VR)
         except Exception as e:  # noqa
@@ -314,6 +329,10 @@ def run(ctx):
         impl[-1] = f"{fin['st']} descriptors={int(fin['descriptors'])} facade={int(fin['facade'])} spa={int(fin['spa'])} pump={int(fin['pump'])}"
         nontrivial.add((k, tuple(x for _, x in ins), fin["st"]))
         # ---------------- direct oracle: the property itself
+        for (t_, what_, rec_) in res.get("samples", []):
+            if what_ == "after-reset" and (rec_["st"] != "IDLE" or rec_["descriptors"] or rec_["facade"] or rec_["spa"]):
+                ctx.violation(f"reset-landing:{k}", inp, "a reset lands in IDLE with no facade, spa or descriptors", {"t": t_, **rec_})
+                break
         if not fin["pump"]:
             ctx.violation("pump-dead:reset-in-connect" if any(x == "reset!" for _, x in ins) else f"pump-dead:{k}", inp,
                           "the sequence pump never dies", f"pump task ended; final state {fin['st']}")
